@@ -59,7 +59,7 @@ class SrtContext:
         FontStyleType.italic
       ],
       StyleProperties.TextDecoration: [
-        TextDecorationType.underline
+        # Every values: `TextDecorationType.underline` is a field default (None), which matches no value
       ],
       StyleProperties.Color: [
         # Every values
